@@ -6,7 +6,7 @@ import typing as t
 
 from hypothesis import strategies as st
 
-from .. import gens, msgcheck, rfc4512
+from .. import gens, msgcheck, rfc4512, twins
 from ..engine import QUICK, THOROUGH, Ctx, Part, Property, Violation
 
 
@@ -44,6 +44,7 @@ def check_fields(kind: str, f: t.Dict[str, t.Any], ctx: Ctx) -> t.List[Violation
     except Exception as e:
         return [Violation(f"str:{type(e).__name__}", f"{kind} {f!r}: {e!r}")]
     try:
+        twins.poison_parser(rfc4512.lib_class(kind).from_string, text)
         back = rfc4512.lib_class(kind).from_string(text)
     except Exception as e:
         which = _culprit(f)
